@@ -240,7 +240,16 @@ def decode(method: bytes, props, data: bytes, outsize, password=None) -> bytes:
         if method == M_DEFLATE64:
             import inflate64
 
-            return inflate64.Inflater().inflate(data)
+            inf = inflate64.Inflater()
+            out = inf.inflate(data)
+            for _ in range(1024):
+                if getattr(inf, "eof", False) or (outsize is not None and len(out) >= outsize):
+                    break
+                more = inf.inflate(b"")
+                if not more:
+                    break
+                out += more
+            return out
         if method == M_ZSTD:
             try:
                 from backports import zstd as _z
